@@ -706,7 +706,7 @@ func TestC15(t *testing.T) {
 	}
 	rec.R.Exhaustive = true
 	rec.Flush()
-	total := 60 / cfg.NShards
+	total := 400 / cfg.NShards
 	if cfg.Thorough() {
 		total = 4000 / cfg.NShards
 	}
